@@ -307,6 +307,119 @@ func harnesses(r *fw.Run) []fw.HarnessSpec {
 	})
 
 	// depth limit
+	// hashes follow the current contents: hash, extend the cell (or a descendant) in memory, hash again; with and
+	// without an explicit Hasher, through every hash accessor, up to three rounds
+	add("hash-after-mutation", 0, func(c *enum.Ctx) {
+		api := c.ChooseFree(4)   // 0 Hash, 1 HashString, 2 Hash256, 3 Hasher.Hash (one hasher for all rounds)
+		depth := c.ChooseFree(3) // the mutated cell is the root / a child / a grandchild of the hashed cell
+		var muts []int
+		for i := 0; i < 3; i++ {
+			k := c.ChooseFree(4) // 0 stop, 1 append 5 bits, 2 append a byte, 3 add a reference
+			if k == 0 {
+				break
+			}
+			muts = append(muts, k)
+		}
+		c.Case([]byte(fmt.Sprintf("mut/%d/%d/%v", api, depth, muts)), len(muts) > 0)
+		c.Label("hash api %d, mutated cell at depth %d, mutations %v", api, depth, muts)
+		c.Try("panic:hash-after-mutation", func() {
+			// model: bits and refs of the chain root -> child -> grandchild
+			type node struct {
+				b    bits.Bits
+				refs int // number of extra leaf references
+			}
+			chain := []*node{{b: bits.Pattern(seed, 13)}, {b: bits.Pattern(seed+1, 8)}, {b: bits.Pattern(seed+2, 3)}}
+			chain = chain[:depth+1]
+			tcells := make([]*tb.Cell, len(chain))
+			for i := len(chain) - 1; i >= 0; i-- {
+				tcells[i] = tb.NewCell()
+				for _, x := range chain[i].b {
+					_ = tcells[i].WriteBit(x)
+				}
+				if i+1 < len(chain) {
+					_ = tcells[i].AddRef(tcells[i+1])
+				}
+			}
+			refOf := func() *cell.Cell {
+				var below *cell.Cell
+				for i := len(chain) - 1; i >= 0; i-- {
+					var refs []*cell.Cell
+					if below != nil {
+						refs = append(refs, below)
+					}
+					for k := 0; k < chain[i].refs; k++ {
+						refs = append(refs, cell.MustNew([]byte{byte(0xE0 + k)}, 8, nil, false))
+					}
+					below = cell.MustNew(chain[i].b.Bytes(), len(chain[i].b), refs, false)
+				}
+				return below
+			}
+			hasher := tb.NewHasher()
+			hashNow := func() ([32]byte, error) {
+				var out [32]byte
+				switch api {
+				case 0:
+					h, err := tcells[0].Hash()
+					copy(out[:], h)
+					return out, err
+				case 1:
+					hs, err := tcells[0].HashString()
+					if err != nil {
+						return out, err
+					}
+					raw, err := hex.DecodeString(hs)
+					copy(out[:], raw)
+					return out, err
+				case 2:
+					h, err := tcells[0].Hash256()
+					return [32]byte(h), err
+				default:
+					h, err := hasher.Hash(tcells[0])
+					copy(out[:], h)
+					return out, err
+				}
+			}
+			check := func(round int) bool {
+				got, err := hashNow()
+				want := refOf().ReprHash()
+				if err != nil || got != want {
+					c.Fail("hash-after-mutation", "round %d (after mutations %v of the cell at depth %d): hash %x,%v want %x", round, muts[:round], depth, got, err, want)
+					return false
+				}
+				return true
+			}
+			if !check(0) {
+				return
+			}
+			target := tcells[depth]
+			for i, k := range muts {
+				switch k {
+				case 1:
+					add := bits.Pattern(seed+10+i, 5)
+					for _, x := range add {
+						_ = target.WriteBit(x)
+					}
+					chain[depth].b = append(chain[depth].b, add...)
+				case 2:
+					_ = target.WriteUint(uint64(0xC3+i), 8)
+					chain[depth].b = append(chain[depth].b, bits.FromBytes([]byte{byte(0xC3 + i)}, 8)...)
+				case 3:
+					lf := tb.NewCell()
+					_ = lf.WriteUint(uint64(0xE0+chain[depth].refs), 8)
+					_ = target.AddRef(lf)
+					chain[depth].refs++
+				}
+				if api == 3 {
+					// an explicit Hasher caches by design (documented: for immutable trees); a fresh one per round
+					hasher = tb.NewHasher()
+				}
+				if !check(i + 1) {
+					return
+				}
+			}
+		})
+	})
+
 	add("depth-limit", 0, func(c *enum.Ctx) {
 		d := []int{1, 2, 1023, 1024, 1025, 1026}[c.ChooseFree(6)]
 		c.Case([]byte(fmt.Sprintf("depth/%d", d)), true)
